@@ -87,7 +87,8 @@ OUT_SRC = [
 OUT_PATHS = [(["C.a", "C.m.a", "C.m.b"]), (["f.a", "f.b", "g.a"]), (["a", "K.a", "K.b"])]
 EVAL_SRC = "import math\n\nx = ('np', 'tf')\ny = (0, 1, 2, False, True)\nz = ('a', 'a', 1.0, 1)\n"
 EVAL_VALUES = {"x": ("np", "tf"), "y": (0, 1, 2, False, True), "z": ("a", "a", 1.0, 1)}
-FTABLE = [(o, npairs, first, wrap, ev) for o in range(3) for npairs in (1, 2, 3) for first in range(3) for wrap in (0, 1) for ev in (0, 1)]
+FTABLE = [(o, npairs, first, wrap, ev, same) for o in range(3) for npairs in (1, 2, 3) for first in range(3) for wrap in (0, 1) for ev in (0, 1)
+          for same in (0, 1) if not (same and npairs == 1)]  # same = 1: every pair reads the SAME input address
 
 
 def _arg_with_default(src, pth):
@@ -105,13 +106,13 @@ def _arg_with_default(src, pth):
 def file_level(c, active):
     c = realize(c)
     with untraced():
-        o, npairs, first, wrap, ev = FTABLE[c]
+        o, npairs, first, wrap, ev, same = FTABLE[c]
         outs = [OUT_PATHS[o][(first + i) % 3] for i in range(npairs)]
         if ev:
-            ins = [("x", "y", "z")[(first + i) % 3] for i in range(npairs)]
+            ins = [("x", "y", "z")[(first + (0 if same else i)) % 3] for i in range(npairs)]
             in_src = EVAL_SRC
         else:
-            ins = [".".join(IN_PATHS[(first + i) % 3]) for i in range(npairs)]
+            ins = [".".join(IN_PATHS[(first + (0 if same else i)) % 3]) for i in range(npairs)]
             in_src = IN_SRC
         fs = FS({"/p/in.py": in_src, "/p/out.py": OUT_SRC[o]})
         undo = install(fs, *MODS)
@@ -160,6 +161,16 @@ def file_level(c, active):
         out_names = [p.split(".")[-1] for p in outs]
         if ev:
             in_names = out_names  # eval mode keeps the output's name
+        else:
+            # "applies every input/output pair": every addressed location now carries the input's name and (unwrapped) its annotation
+            in_tree = ast.parse(in_src)
+            for pth, ip in zip(outs, ins):
+                src_node = resolve(ip.split("."), in_tree)[0]
+                hit = resolve(pth.split(".")[:-1] + [ip.split(".")[-1]], after)
+                if not hit:
+                    return False
+                if not wrap and ast.dump(hit[0].annotation) != ast.dump(src_node.annotation):
+                    return False
         a = mask(after, outs, in_names)
         b = mask(before, outs, out_names)
         return a == b
